@@ -182,7 +182,7 @@ def c18_verdict(validate: bool, pretty: bool, java: bool, write_fail: bool, rc: 
         outcome = "ok"
     except ov.ODKValidateError as e:
         outcome = "invalid"
-        msg = str(e)
+        msg = e.args[0]  # str(exception) would realise the symbolic text
     except OSError:
         outcome = "oserror"
     # no residue under every outcome
@@ -199,7 +199,7 @@ def c18_verdict(validate: bool, pretty: bool, java: bool, write_fail: bool, rc: 
     if timeout:
         return outcome == "ok" and len(warnings) == 1
     if rc > 0:
-        return outcome == "invalid" and ErrorCleaner.odk_validate(stderr) in msg
+        return outcome == "invalid" and stderr in msg  # letters-only text: the cleaner leaves it unchanged (b.cleaner decides the cleaner)
     if rc == 0:
         if outcome != "ok":
             return False
